@@ -36,7 +36,7 @@ static bool same_authority(const Comp& a, const Comp& b) {
 }
 // can some reference without scheme (and, if wantNoAuth, without authority) resolve against B to S (modulo canon)?
 // constructive: try the obvious candidates.
-static bool exists_ref(const Comp& S, const Comp& B, bool wantNoAuth, Str* witness) {
+static bool exists_ref(const Comp& S, const Comp& B, bool wantNoAuth, Str* witness, bool absolutePathOnly = false) {
     std::vector<Comp> cands;
     Comp r; r.hasQuery = S.hasQuery; r.query = S.query; r.hasFrag = S.hasFrag; r.frag = S.frag;
     if (!wantNoAuth) {
@@ -46,7 +46,7 @@ static bool exists_ref(const Comp& S, const Comp& B, bool wantNoAuth, Str* witne
     // absolute-path reference
     if (!S.path.empty() && S.path[0] == '/') { Comp a = r; a.path = S.path; if (S.path.size() >= 2 && S.path[1] == '/') a.path = "/." + S.path; cands.push_back(a); }
     // relative-path references: strip common directory prefix, add "../"
-    {
+    if (!absolutePathOnly) {
         Str sp = S.path, bp = B.path;
         if (B.hasAuth && bp.empty()) bp = "/";
         if (S.hasAuth && sp.empty()) sp = "/";
@@ -128,8 +128,8 @@ template <class X> void run(Ctx& c, const Str& Ss, const Str& Bs, const char* ge
             if (rt != recompose(ms)) c.violation("C10", fmt("shorten/%s/schemes-differ-not-source", X::tag()), what);
         } else if (rvalid) {
             Str w;
-            if (mrf.hasScheme && exists_ref(ms, mb, false, &w)) c.violation("C10", fmt("shorten/%s/scheme-kept", X::tag()), what + fmt(" e.g. \"%s\" would do", esc(w).c_str()));
-            if (!mrf.hasScheme && mrf.hasAuth && same_authority(ms, mb) && exists_ref(ms, mb, true, &w)) c.violation("C10", fmt("shorten/%s/authority-kept", X::tag()), what + fmt(" e.g. \"%s\" would do", esc(w).c_str()));
+            if (mrf.hasScheme && exists_ref(ms, mb, false, &w, root)) c.violation("C10", fmt("shorten/%s/scheme-kept", X::tag()), what + fmt(" e.g. \"%s\" would do", esc(w).c_str()));
+            if (!mrf.hasScheme && mrf.hasAuth && same_authority(ms, mb) && exists_ref(ms, mb, true, &w, root)) c.violation("C10", fmt("shorten/%s/authority-kept", X::tag()), what + fmt(" e.g. \"%s\" would do", esc(w).c_str()));
             if (root && same_authority(ms, mb) && !mrf.hasAuth && !mrf.hasScheme && !(mrf.path.size() && mrf.path[0] == '/'))
                 c.violation("C10", fmt("shorten/%s/domain-root-path-not-absolute", X::tag()), what);
         }
